@@ -309,6 +309,8 @@ impl Distribution<u64> for Hypergeometric {
 
                 // the paper erroneously uses `until n < p`, which doesn't make any sense
                 while u > p && x < k as i64 {
+                    #[cfg(rand_distr_verif)]
+                    crate::verif_hooks::probe(47);
                     u -= p;
                     p *= ((n1 as i64 - x) * (k as i64 - x)) as f64;
                     p /= ((x + 1) * (n2 as i64 - k as i64 + 1 + x)) as f64;
@@ -335,19 +337,29 @@ impl Distribution<u64> for Hypergeometric {
 
                         if u <= p1 {
                             // Region 1, central bell
+                            #[cfg(rand_distr_verif)]
+                            crate::verif_hooks::probe(48);
                             let y = (x_l + u).floor();
                             break (y, v);
                         } else if u <= p2 {
                             // Region 2, left exponential tail
+                            #[cfg(rand_distr_verif)]
+                            crate::verif_hooks::probe(50);
                             let y = (x_l + v.ln() / lambda_l).floor();
                             if y as i64 >= i64::max(0, k as i64 - n2 as i64) {
+                                #[cfg(rand_distr_verif)]
+                                crate::verif_hooks::probe(49);
                                 let v = v * (u - p1) * lambda_l;
                                 break (y, v);
                             }
                         } else {
                             // Region 3, right exponential tail
+                            #[cfg(rand_distr_verif)]
+                            crate::verif_hooks::probe(52);
                             let y = (x_r - v.ln() / lambda_r).floor();
                             if y as u64 <= u64::min(n1, k) {
+                                #[cfg(rand_distr_verif)]
+                                crate::verif_hooks::probe(51);
                                 let v = v * (u - p2) * lambda_r;
                                 break (y, v);
                             }
@@ -357,6 +369,8 @@ impl Distribution<u64> for Hypergeometric {
                     // Step 4: Acceptance/Rejection Comparison
                     if m < 100.0 || y <= 50.0 {
                         // Step 4.1: evaluate f(y) via recursive relationship
+                        #[cfg(rand_distr_verif)]
+                        crate::verif_hooks::probe(53);
                         let mut f = 1.0;
                         if m < y {
                             for i in (m as u64 + 1)..=(y as u64) {
@@ -371,6 +385,8 @@ impl Distribution<u64> for Hypergeometric {
                         }
 
                         if v <= f {
+                            #[cfg(rand_distr_verif)]
+                            crate::verif_hooks::probe(54);
                             break y as i64;
                         }
                     } else {
@@ -401,6 +417,8 @@ impl Distribution<u64> for Hypergeometric {
                             + 0.0034;
                         let av = v.ln();
                         if av > ub {
+                            #[cfg(rand_distr_verif)]
+                            crate::verif_hooks::probe(55);
                             continue;
                         }
                         let dr = if r < 0.0 {
@@ -425,16 +443,22 @@ impl Distribution<u64> for Hypergeometric {
                         };
 
                         if av < ub - 0.25 * (dr + ds + dt + de) + (y + m) * (gl - gu) - 0.0078 {
+                            #[cfg(rand_distr_verif)]
+                            crate::verif_hooks::probe(56);
                             break y as i64;
                         }
 
                         // Step 4.3: Final Acceptance/Rejection Test
+                        #[cfg(rand_distr_verif)]
+                        crate::verif_hooks::probe(58);
                         let av_critical = a
                             - ln_of_factorial(y)
                             - ln_of_factorial(n1 as f64 - y)
                             - ln_of_factorial(k as f64 - y)
                             - ln_of_factorial((n2 - k) as f64 + y);
                         if v.ln() <= av_critical {
+                            #[cfg(rand_distr_verif)]
+                            crate::verif_hooks::probe(57);
                             break y as i64;
                         }
                     }
